@@ -79,6 +79,54 @@ package aggregate
 //@   loop#1 invariant forall j in 0 .. i : exists k attribute.Distinct : old(has(s.values, k)) && dPts[j].Value === old(s.values[k].n) && dPts[j].Attributes == old(s.values[k].attrs)
 //@   loop#1 invariant forall k attribute.Distinct : has(s.values, k) == old(has(s.values, k)) && (has(s.values, k) ==> s.values[k] === old(s.values[k]))
 
+// precomputed (asynchronous) sums: a delta point is the observed value minus the value observed for the same attribute
+// set in the PRECEDING cycle (zero if it was not observed then); afterwards `reported` holds exactly this cycle's
+// observations - no entry of an earlier cycle survives - and the observations are forgotten
+// (the float64 difference is named so that the quantified clauses need no floating-point reasoning)
+//@ spec deltaF(v float64, seen bool, prev float64) float64 = v - ite(seen, prev, 0.0)
+//@ func (s *precomputedSum[N]) delta(dest *metricdata.Aggregation) (n int)
+//@   prop C08
+//@   instances int64; float64
+//@   acquires valueMap.Mutex
+//@   overflow assumed
+//@   unchecked frame the destination's previous data point slice may be reused in place
+//@   requires s != nil && s.valueMap != nil && s.values != nil && dest != nil
+//@   requires forall k attribute.Distinct : has(s.values, k) ==> s.values[k].res != nil
+//@   requires !fresh(s.reported)   // memory-model typing fact: a map that exists at entry is not one allocated later
+//@   ensures n == old(len(s.values)) && len(s.values) == 0 && s.start === now()
+//@   ensures typeis(*dest, "metricdata.Sum[$N]") && cast(*dest, "metricdata.Sum[$N]").Temporality == metricdata.DeltaTemporality && cast(*dest, "metricdata.Sum[$N]").IsMonotonic == s.monotonic
+//@   ensures len(cast(*dest, "metricdata.Sum[$N]").DataPoints) == n
+//@   ensures forall j in 0 .. n : cast(*dest, "metricdata.Sum[$N]").DataPoints[j].StartTime === old(s.start) && cast(*dest, "metricdata.Sum[$N]").DataPoints[j].Time === now()
+//@   @int64 ensures forall j in 0 .. n : exists k attribute.Distinct : old(has(s.values, k)) && cast(*dest, "metricdata.Sum[$N]").DataPoints[j].Value === old(s.values[k].n) - ite(old(has(s.reported, k)), old(s.reported[k]), 0) && cast(*dest, "metricdata.Sum[$N]").DataPoints[j].Attributes == old(s.values[k].attrs)
+//@   @float64 ensures forall j in 0 .. n : exists k attribute.Distinct : old(has(s.values, k)) && cast(*dest, "metricdata.Sum[$N]").DataPoints[j].Value === deltaF(old(s.values[k].n), old(has(s.reported, k)), old(s.reported[k])) && cast(*dest, "metricdata.Sum[$N]").DataPoints[j].Attributes == old(s.values[k].attrs)
+//@   ensures forall k attribute.Distinct : has(s.reported, k) == old(has(s.values, k)) && (has(s.reported, k) ==> s.reported[k] === old(s.values[k].n))
+//@   loop#1 invariant i == $iter && 0 <= i && i <= n && len(dPts) == n && s.start === old(s.start) && s.reported == old(s.reported) && fresh(newReported)
+//@   loop#1 invariant forall j in 0 .. i : dPts[j].StartTime === old(s.start) && dPts[j].Time === t
+//@   @int64 loop#1 invariant forall j in 0 .. i : exists k attribute.Distinct : old(has(s.values, k)) && dPts[j].Value === old(s.values[k].n) - ite(old(has(s.reported, k)), old(s.reported[k]), 0) && dPts[j].Attributes == old(s.values[k].attrs)
+//@   @float64 loop#1 invariant forall j in 0 .. i : exists k attribute.Distinct : old(has(s.values, k)) && dPts[j].Value === deltaF(old(s.values[k].n), old(has(s.reported, k)), old(s.reported[k])) && dPts[j].Attributes == old(s.values[k].attrs)
+//@   loop#1 invariant forall k attribute.Distinct : has(s.values, k) == old(has(s.values, k)) && (has(s.values, k) ==> s.values[k] === old(s.values[k]))
+//@   loop#1 invariant forall k attribute.Distinct : (has(s.reported, k) == old(has(s.reported, k))) && (has(s.reported, k) ==> s.reported[k] === old(s.reported[k]))
+//@   loop#1 invariant forall k attribute.Distinct : has(newReported, k) == $visited(k) && (has(newReported, k) ==> old(has(s.values, k)) && newReported[k] === old(s.values[k].n))
+
+// cumulative: the observed values as they are, over [start, t]; `reported` is not touched
+//@ func (s *precomputedSum[N]) cumulative(dest *metricdata.Aggregation) (n int)
+//@   prop C08
+//@   instances int64; float64
+//@   acquires valueMap.Mutex
+//@   overflow assumed
+//@   unchecked frame the destination's previous data point slice may be reused in place
+//@   requires s != nil && s.valueMap != nil && s.values != nil && dest != nil
+//@   requires forall k attribute.Distinct : has(s.values, k) ==> s.values[k].res != nil
+//@   ensures n == old(len(s.values)) && len(s.values) == 0 && s.start === old(s.start) && s.reported == old(s.reported)
+//@   ensures typeis(*dest, "metricdata.Sum[$N]") && cast(*dest, "metricdata.Sum[$N]").Temporality == metricdata.CumulativeTemporality && cast(*dest, "metricdata.Sum[$N]").IsMonotonic == s.monotonic
+//@   ensures len(cast(*dest, "metricdata.Sum[$N]").DataPoints) == n
+//@   ensures forall j in 0 .. n : cast(*dest, "metricdata.Sum[$N]").DataPoints[j].StartTime === old(s.start) && cast(*dest, "metricdata.Sum[$N]").DataPoints[j].Time === now()
+//@   ensures forall j in 0 .. n : exists k attribute.Distinct : old(has(s.values, k)) && cast(*dest, "metricdata.Sum[$N]").DataPoints[j].Value === old(s.values[k].n) && cast(*dest, "metricdata.Sum[$N]").DataPoints[j].Attributes == old(s.values[k].attrs)
+//@   loop#1 invariant i == $iter && 0 <= i && i <= n && len(dPts) == n && s.start === old(s.start) && s.reported == old(s.reported)
+//@   loop#1 invariant forall j in 0 .. i : dPts[j].StartTime === old(s.start) && dPts[j].Time === t
+//@   loop#1 invariant forall j in 0 .. i : exists k attribute.Distinct : old(has(s.values, k)) && dPts[j].Value === old(s.values[k].n) && dPts[j].Attributes == old(s.values[k].attrs)
+//@   loop#1 invariant forall k attribute.Distinct : has(s.values, k) == old(has(s.values, k)) && (has(s.values, k) ==> s.values[k] === old(s.values[k]))
+
 // ======================================================================== C07 explicit-bucket histograms
 //@ spec sortedF(a []float64) bool = forall i in 0 .. len(a) : forall j in 0 .. i : a[j] <= a[i]
 
